@@ -189,6 +189,94 @@ def make_create(eng, k, ne, sphinx):
     return body
 
 
+DOCS = [
+    ("header", "# A\n\n### C\n\ntext\n"),
+    ("xref_missing", "para [txt](#missing) and [](#missing2)\n"),
+    ("directive_unknown", "```{nosuchdirective}\nx\n```\n\nafter\n"),
+    ("role_unknown", "a {nosuchrole}`x` b\n"),
+    ("topmatter", "---\na: [\n---\n\nbody\n"),
+    ("topmatter", "---\nmyst:\n  nosuchfield: 1\n---\n\nbody\n"),
+    ("substitution", "a {{ undefined_name }} b\n"),
+    ("directive_option", "```{note}\n:nosuchoption: 1\n\nbody\n```\n"),
+    ("directive_comments", "```{note}\n:class: x # comment\n\nbody\n```\n"),
+    ("strikethrough", "a ~~b~~ c\n"),
+    ("attribute", "![a](b.png){width=nonsense}\n"),
+    ("duplicate_def", "[r]: http://a\n[r]: http://b\n\n[r]\n"),
+]
+
+
+def _strip_tagged(doc, tag):
+    from docutils import nodes
+
+    n = 0
+    for m in list(doc.findall(nodes.system_message)):
+        if ("[%s]" % tag) in m.astext():
+            m.parent.remove(m)
+            n += 1
+    return n
+
+
+def run_suppress_case(i, form, real=False):
+    """Returns (n_removed_from_plain, plain_pformat_without_tagged, suppressed_pformat, warn_plain, warn_suppressed)."""
+    from harness import common_render as CR
+
+    sub, text = DOCS[i]
+    tag = "myst." + sub
+    entry = {0: tag, 1: "myst", 2: "myst.*"}[form]
+    ext = {"myst_enable_extensions": ["substitution", "strikethrough", "attrs_inline"], "myst_heading_anchors": 2, "report_level": 2}
+    d1, w1 = CR.publish(text, dict(ext), real=real)
+    d2, w2 = CR.publish(text, dict(ext, myst_suppress_warnings=[entry]), real=real)
+    had = w1.count("[%s]" % tag)
+    n = _strip_tagged(d1, tag)
+    if form:
+        # a bare type entry suppresses every myst warning
+        from docutils import nodes
+
+        for m in list(d1.findall(nodes.system_message)):
+            if "[myst." in m.astext():
+                m.parent.remove(m)
+    return had, n, d1.pformat(), d2.pformat(), w1, w2, tag
+
+
+def make_suppress(eng):
+    from harness import common_render as CR
+
+    CR.setup_pipeline()
+    c = CR.Choice(eng)
+    state = {}
+    eng.witness_fn = lambda m: dict(state)
+
+    def body():
+        c.reset()
+        i = c.choose(len(DOCS))
+        form = c.choose(3)
+        state.update(doc=i, form=form)
+        try:
+            had, n, p1, p2, w1, w2, tag = run_suppress_case(i, form)
+        except Exception as exc:  # noqa
+            eng.fail("suppress-raises", "%s: %s" % (type(exc).__name__, exc))
+        eng.require(had >= 1, "catalogue-tag-emitted", "document %r did not emit [%s]: %r" % (DOCS[i][1], tag, w1[:200]))
+        eng.require(("[%s]" % tag) not in w2, "suppressed-still-logged", w2[:200])
+        eng.require(("[%s]" % tag) not in p2, "suppressed-still-in-doctree")
+        if p1 != p2:
+            eng.stats["obligations"] += 1
+            eng.candidates.append(core.Candidate("suppression-side-effect", eng.witness(), _first_diff(p1, p2)))
+        else:
+            eng.passed(1)
+        eng.note("emitted")
+        return tag
+
+    return body
+
+
+def _first_diff(a, b):
+    la, lb = a.splitlines(), b.splitlines()
+    for x, y in zip(la, lb):
+        if x != y:
+            return "unsuppressed (warnings removed) has %r where suppressed has %r" % (x, y)
+    return "line counts differ: %d vs %d" % (len(la), len(lb))
+
+
 def families(tier, seed):
     q = tier == "quick"
     F = []
@@ -205,6 +293,8 @@ def families(tier, seed):
                             "every MystWarnings member (+ 'ref.footnote'), %d suppress entries each either symbolic (%d chars over 'myst.*hr') or the type / type.* / exact tag; append_to, line, node presence symbolic; %s front end" % (
                                 k, ne, "Sphinx (stub env + recording logger)" if sphinx else "docutils"),
                             args=dict(k=k, ne=ne, sphinx=sphinx), nontrivial="emitted", max_forks=40000, required=(k <= 2)))
+    F.append(Family("suppress-docs", make_suppress, "%d documents each triggering one catalogue warning through the whole docutils pipeline x suppress entry (exact tag / bare type / type.*): "
+                    "the warning disappears from log and doctree and nothing else changes (degenerate)" % len(DOCS), nontrivial="emitted", max_forks=100000))
     return F
 
 
@@ -218,6 +308,19 @@ def _spec_py(typ, sub, entries):
 def replay(label, witness):
     import myst_parser.warnings_ as real
     from docutils import nodes
+
+    if "doc" in witness:
+        try:
+            had, n, p1, p2, w1, w2, tag = run_suppress_case(witness["doc"], witness["form"], real=True)
+        except Exception as e:  # noqa
+            return ("C14/exception:%s" % type(e).__name__, "%r" % (e,))
+        if had < 1:
+            return ("C14/tag-not-emitted:%s" % tag, "document %r does not emit [%s]: %r" % (DOCS[witness["doc"]][1], tag, w1[:300]))
+        if ("[%s]" % tag) in w2 or ("[%s]" % tag) in p2:
+            return ("C14/suppression-ineffective:%s" % tag, "suppressed run still shows [%s]" % tag)
+        if p1 != p2:
+            return ("C14/suppression-side-effect:%s" % tag, "document %r: %s" % (DOCS[witness["doc"]][1], _first_diff(p1, p2)))
+        return None
 
     if "type" in witness:
         typ, sub, sup = witness["type"], witness["subtype"], witness["suppress"]
